@@ -54,6 +54,9 @@ def cases(r, tier):
     out = []
     for kw in LUA_ONLY_KEYWORDS:
         out.append(("keyword-field", keyword_field(kw)))
+    # every other place where a SOURCE identifier is written into the Lua text verbatim: externals (read as globals)
+    for kw in LUA_ONLY_KEYWORDS:
+        out.append(("keyword-external", "%s: fn int -> int : external\nprint: fn *X -> void : external\nstart :: fn do\n  print(%s(1))\nend\n" % (kw, kw)))
     # strings: each single byte 1..255 except '"' (0x22) where the result is valid UTF-8, plus mixtures
     singles = [chr(b) for b in range(1, 128) if b != 0x22] + ["ö", "€", "😀", "\\n", "\\q", "\\", "a\\", "\\\\", "\\\"".replace('"', "'"),
                                                                "line1\nline2", "tab\there", "cr\rhere", "\\u{41}", "\\x41", "\\065", "%d %s", "]]", "--", "[[", "\\z"]
